@@ -397,6 +397,24 @@ def rule_raise_exit(model):
                 ok = True
             r.instance(fh.where, f'for {norm(lp.target)} in '
                        f'{norm(lp.iter)}', 'first-match' if ok else '?')
+    hloops = [lp for lp in loops if isinstance(lp.iter, ast.Attribute)
+              or any(isinstance(x, ast.Attribute) and
+                     isinstance(x.value, ast.Name) and x.value.id == 'self'
+                     for x in ast.walk(lp.iter))]
+    if len(hloops) != 1:
+        ok = False
+    else:
+        # one decision per handler: a single `if` whose test offers the
+        # three alternatives (exact name, bare except, base class)
+        ifs = [x for x in hloops[0].body if isinstance(x, ast.If)]
+        if len(ifs) != 1 or len(hloops[0].body) != 1:
+            ok = False
+        else:
+            t = ast.unparse(ifs[0].test)
+            if not ('__name__' in t and "''" in t and 'match_base' in t
+                    and isinstance(ifs[0].test, ast.BoolOp)
+                    and isinstance(ifs[0].test.op, ast.Or)):
+                ok = False
     if not ok:
         r.finding(fh.where, 'handler search loop', 'handlers are not '
                   'searched first-match in the order written (direct loop '
